@@ -508,9 +508,9 @@ func sszLeanIdent(s string) string {
 
 func sszLeanFacts(pkgs map[string]*sszPackage, types []*sszType) (string, string, error) {
 	var b strings.Builder
-	b.WriteString("import Zrnt.Schema.Facts\n/-! GENERATED by /verif/go/cmd/extract (sszfacts) from /repo — do not edit.\n\n")
+	b.WriteString("import Zrnt.Schema.KnownDeviations\n/-! GENERATED by /verif/go/cmd/extract (sszfacts) from /repo — do not edit.\n\n")
 	b.WriteString("Every Go type with the SSZ method set: declaration, descriptors of the five method bodies, view type.\n")
-	b.WriteString("`row_ok_<type>`: the per-type obligation (`decide`); a failing row names the type, `checkType` names the method. -/\n")
+	b.WriteString("`row_ok_<type>`: the per-type obligation (`decide`); a failing row names the type, `checkType` names the method\n(`rowOk`: agrees with the schema, or disagrees exactly as recorded in Zrnt.Schema.KnownDeviations). -/\n")
 	b.WriteString("namespace Zrnt.Gen.SszFacts\nopen Zrnt.Schema Zrnt.Schema.Facts\n\n")
 	// views
 	var viewNames []string
@@ -589,10 +589,10 @@ func sszLeanFacts(pkgs map[string]*sszPackage, types []*sszType) (string, string
 	}
 	b.WriteString("]\n\n")
 	for i, t := range types {
-		fmt.Fprintf(&b, "theorem row_ok_%s : checkType owners views %s = none := by decide +kernel\n", sszLeanIdent(t.key()), ids[i])
+		fmt.Fprintf(&b, "theorem row_ok_%s : rowOk owners views %s = true := by decide +kernel\n", sszLeanIdent(t.key()), ids[i])
 	}
 	// membership lift: the quantified statement from the per-row obligations
-	b.WriteString("\n/-- every row checks (from the per-type obligations above) -/\ntheorem all_rows_ok : types.all (fun T => (checkType owners views T).isNone) = true := by\n  simp only [types, List.all_cons, List.all_nil, Option.isNone_none, Bool.and_self,\n")
+	b.WriteString("\n/-- every row checks (from the per-type obligations above) -/\ntheorem all_rows_ok : types.all (fun T => rowOk owners views T) = true := by\n  simp only [types, List.all_cons, List.all_nil, Bool.and_self,\n")
 	for i, t := range types {
 		sep := ","
 		if i == len(types)-1 {
